@@ -144,13 +144,21 @@ def run(ctx):
         ll_exact.append((thetas, mus, rows))
         ctx.count("ll_tables_with_nan_or_inf")
     runs = [] if ctx.replay is not None else [tu.gen_config(ctx.rng) for _ in range(3 if ctx.quick() else 12)]
+    if runs:
+        runs[0]["beta"] = 5          # an integer-typed switching cost first …
+        runs[-1]["beta"] = 2.5       # … and a fractional one later in the same process
     job = {"kernel": kjobs, "ll": lljobs, "runs": runs}
 
     modes = [("jit", 1), ("jit", 4), ("nojit", None), ("nonumba", None)]
     if not ctx.quick():
         modes = [("jit", t) for t in (1, 2, 4, 8, 16)] + [("nojit", None), ("nonumba", None)]
-    with ThreadPoolExecutor(max_workers=len(modes)) as ex:
+    # one more compiled process in which the complete runs come FIRST (an integer-typed switching cost in the very first
+    # one) and the direct kernel calls afterwards: the kernel results must be what they are in every other process
+    job_rf = dict(job, order="runs-first", ll=[])
+    with ThreadPoolExecutor(max_workers=len(modes) + 1) as ex:
+        fut_rf = ex.submit(spawn, "jit", 1, job_rf) if runs else None
         results = list(ex.map(lambda m: spawn(m[0], m[1], job), modes))
+        res_rf = fut_rf.result() if fut_rf is not None else None
     names = [f"{m}{'' if t is None else '@' + str(t)}" for m, t in modes]
     for name, (m, t), r in zip(names, modes, results):
         ok = ((m == "jit" and r["numba_available"] and r.get("is_compiled") and r.get("numba_threads") == t)
@@ -182,6 +190,16 @@ def run(ctx):
                 ctx.count("tie_broken_differently:" + name)
             ctx.case(("k", i, name), nontrivial=T >= 2 and K >= 2,
                      sample={"mode": name, "T": T, "K": K, "labels": got["labels"][:10]} if len(ctx.samples) < 4 and T >= 3 else None)
+        for name, r in zip(names, results):
+            again = (r.get("kernel_again") or [None] * len(kernel_cases))[i]
+            if again is not None and again != r["kernel"][i]:
+                ctx.violation("impl-violation", f"mode {name}: the labelling kernel returns {str(again)[:120]} for an input for which it returned "
+                              f"{str(r['kernel'][i])[:120]} earlier in the same process (complete runs were made in between)",
+                              dict(c, mode=name), {"site": "kernel-mode-history"})
+        if res_rf is not None and res_rf["kernel"][i] != results[0]["kernel"][i]:
+            ctx.violation("impl-violation", f"compiled labelling kernel called after complete runs (first of them with an integer switching "
+                          f"cost) returns {str(res_rf['kernel'][i])[:120]}, in a process that called it first {str(results[0]['kernel'][i])[:120]}",
+                          dict(c, mode="jit@1 runs-first"), {"site": "kernel-mode-history"})
         labs = {json.dumps(r["kernel"][i].get("labels")) for r in results}
         if len(labs) > 1:
             ctx.violation("impl-violation", "labelling kernel returns different labels in different execution modes", c, {"site": "kernel-mode"})
